@@ -1,7 +1,9 @@
 """C06 — deep copies of a tree are independent of the original.
 
 Direct oracle (the property statement itself, on the real code): a history of `copy.deepcopy`,
-add/remove class/symbol/equation through the AST API on any of the trees, and flatten (directly,
+add/remove class/symbol/equation through the AST API on any of the trees — including adding to one
+tree a copy (`find_class(copy=True)` / `copy.deepcopy`) of a class taken from another tree or from
+the same tree — and flatten (directly,
 or the way the SymPy/XML backends do it: on a deep copy) of any class of any tree.  Every edit is
 mirrored on a pure description of that tree; after every flatten the result must be the result of
 flattening the same class on a fresh parse of the source regenerated from the description of
@@ -25,7 +27,8 @@ from harness.gen import a04
 from harness.props import c05
 
 DRIVERS = ["drv_c06"]
-RULE = ("a case is one history (deepcopy / add or remove a class, symbol or equation on any live tree / flatten any class "
+RULE = ("a case is one history (deepcopy / add or remove a class, symbol or equation on any live tree / add to a tree a copy "
+        "of a class of any live tree / flatten any class "
         "of any live tree, directly or through a backend-style deep copy) over a generated library (packages, nested "
         "classes, extends, class-typed components with modifications, type aliases, connectors, functions, constants, "
         "redeclarations); non-trivial = at least one copy, one edit after it and one flatten after that edit; distinct = "
@@ -163,6 +166,34 @@ def model_copy(ctx, drv, trees, i, case):
     return new
 
 
+def confined(ctx, trees, j, fn, case):
+    """Runs an edit of tree j between two snapshots of all live trees: the objects it writes must
+    belong to tree j (hypothesis `Confined` of edit_independent); returns the outcome of fn."""
+    roots = [tr["tree"] for tr in trees]
+    g = a04.Graph(roots)
+    before = g.signatures()
+    r = a04.outcome(fn)
+    after = g.signatures()
+    written = [k for k in range(len(before)) if before[k] != after[k]]
+    mine = set()
+    todo = [g.idx(roots[j])]
+    while todo:
+        k = todo.pop()
+        if k in mine:
+            continue
+        mine.add(k)
+        for tag, m in g.rows[k][2]:
+            if tag == "own":
+                todo.append(m)
+    ctx.count("edit-confinement-probe")
+    out = [k for k in written if k not in mine]
+    if out:
+        ctx.disagreement("edit-confined", dict(case, edited_tree=j),
+                         "edits of a tree write only to objects of that tree or to new objects",
+                         "wrote %s" % [(g.rows[k][0], g.rows[k][4]) for k in out[:6]])
+    return r
+
+
 # ---- one history ---------------------------------------------------------------------------------
 def flatten_outcome(t, path, via):
     from pymoca import ast, tree
@@ -217,13 +248,51 @@ def check_history(ctx, case, drv):
             i, e = op[1], op[2]
             if i >= len(trees):
                 continue
-            r = apply_edit(trees[i]["tree"], trees[i]["lib"], e)
+            if n % 3 == 0:
+                box = {}
+
+                def do():
+                    box["r"] = apply_edit(trees[i]["tree"], trees[i]["lib"], e)
+                cr = confined(ctx, trees, i, do, dict(small, upto=n + 1))
+                if cr[0] != "ok":
+                    raise HarnessError("apply_edit raised " + cr[1])
+                r = box["r"]
+            else:
+                r = apply_edit(trees[i]["tree"], trees[i]["lib"], e)
             ctx.count("op-%s%s" % (e["kind"], "" if r is None else "-rejected"))
             if r is not None and r not in ("skipped",) and not op[3]:
                 # the generator only issues edits that are applicable to the description
                 ctx.violation("%s through the AST API raised %s on a tree where the edit applies" % (e["kind"], r),
                               dict(small, upto=n + 1), "edit applied", r, "history")
                 return
+        elif kind == "graft":
+            si, spath, dj, dparent, how = op[1], op[2], op[3], op[4], op[5]
+            if si >= len(trees) or dj >= len(trees):
+                continue
+            sd = a04.find_desc(trees[si]["lib"], spath)
+            holder = a04.find_desc(trees[dj]["lib"], dparent) if dparent else trees[dj]["lib"]
+            if sd is None or holder is None:
+                continue
+
+            def real():
+                from pymoca import ast
+                src = trees[si]["tree"]
+                if how == "find_class":
+                    c = src.find_class(ast.ComponentRef.from_tuple(tuple(spath)), copy=True)
+                else:
+                    c = copy.deepcopy(_cls(src, spath))
+                _cls(trees[dj]["tree"], dparent).add_class(c)
+            r = confined(ctx, trees, dj, real, dict(small, upto=n + 1))
+            ctx.count("op-graft-%s%s" % (how, "" if r[0] == "ok" else "-rejected"))
+            if r[0] != "ok":
+                ctx.violation("adding to a tree a copy of a class of another tree raised %s" % r[1],
+                              dict(small, upto=n + 1), "edit applied", r[1], "history")
+                return
+            nd = copy.deepcopy(sd)
+            if any(c["name"] == nd["name"] for c in holder["classes"]):
+                holder["classes"] = [nd if c["name"] == nd["name"] else c for c in holder["classes"]]
+            else:
+                holder["classes"].append(nd)
         elif kind == "flatten":
             i, path, via = op[1], op[2], op[3]
             if i >= len(trees):
@@ -311,7 +380,33 @@ def gen_history(ctx, rng, nops):
             ops.append(["copy", i, ncopy < 2])      # the first two copies of a history are also put to the model
             descs.append(copy.deepcopy(d))
             ncopy += 1
-        elif r < 0.55 and full:
+        elif r < 0.28 and paths:
+            # add to tree j a copy (find_class / deepcopy) of a class of tree i; then flatten it in both trees
+            # (a `replaceable` class is an element, not a stored definition: it cannot be regenerated at top level)
+            sp = rng.choice([x for x in paths if not a04.find_desc(d, x)["prefix"]] or paths)
+            j = rng.randrange(len(descs))
+            dd = descs[j]
+            dfull = [list(x) for x in a04.class_paths(dd) if a04.find_desc(dd, x)["short"] is None
+                     and a04.find_desc(dd, x)["kind"] in ("package", "model")]
+            cands = [[]] + [x for x in dfull if not (i == j and x[:len(sp)] == sp)]
+            cands = [x for x in cands if not any(c["name"] == sp[-1] for c in
+                                                 (a04.find_desc(dd, x)["classes"] if x else dd["classes"]))]
+            if cands:
+                dparent = rng.choice(cands)
+                tmp = copy.deepcopy(dd)
+                nd = copy.deepcopy(a04.find_desc(d, sp))
+                (a04.find_desc(tmp, dparent) if dparent else tmp)["classes"].append(nd)
+                encl = [dparent[:k] for k in range(1, len(dparent) + 1)]
+                if not reaches(tmp, dparent + [sp[-1]], encl):
+                    descs[j] = tmp
+                    how = rng.choice(["find_class", "deepcopy"])
+                    ops.append(["graft", i, sp, j, dparent, how])
+                    ops.append(["flatten", i, sp, "direct"])
+                    ops.append(["flatten", j, dparent + [sp[-1]], rng.choice(["direct", "copy"])])
+                    us = users(descs[i], sp[-1])
+                    if us:
+                        ops.append(["flatten", i, rng.choice(us), "direct"])
+        elif r < 0.6 and full:
             p = rng.choice(full)
             c = a04.find_desc(d, p)
             q = rng.random()
@@ -381,7 +476,7 @@ def nontrivial(ops):
     for op in ops:
         if op[0] == "copy":
             seen_copy = True
-        elif op[0] == "edit" and seen_copy:
+        elif op[0] in ("edit", "graft") and seen_copy:
             seen_edit = True
         elif op[0] == "flatten" and seen_edit:
             return True
